@@ -2,6 +2,7 @@ import FastgoModel.Spec.Inflate
 import FastgoModel.Writer.Replay
 import FastgoModel.Container.Members
 import FastgoModel.Reader.Replay
+import FastgoModel.Writer.Tokens
 /-
   Line-protocol driver of the executable models (`lake build fgmodel`).
   One case per input line, one answer line per case. Bytes travel as lowercase hex.
@@ -89,6 +90,34 @@ def answerW (window maxTok : Nat) (fails : List Nat) (ops : List Writer.Op) (log
   let bad := match w.dyn.mf.bad with | none => "-" | some m => m
   s!"{String.intercalate ";" lines} left={(takeChunks w.dyn.mf.log).2.length} bad={bad}"
 
+/-! ### G: leaf-contract check of one recorded match-finder call -/
+
+def parseTok (s : String) : Option RTok :=
+  if s.startsWith "l" then some (.lit (UInt8.ofNat (parseNat! (s.drop 1).toString)))
+  else if s.startsWith "p" then
+    match (s.drop 1).toString.splitOn "." with
+    | [a, b] => some (.lit2 (UInt8.ofNat (parseNat! a)) (UInt8.ofNat (parseNat! b)))
+    | _ => none
+  else if s.startsWith "m" then
+    match (s.drop 1).toString.splitOn "." with
+    | [l, dd] => some (.mtch (parseNat! l) (parseNat! dd))
+    | _ => none
+  else none
+
+/-- diagnostic only: index of the first token at which the check fails -/
+def firstBadTok (window : Nat) (buf : Array UInt8) (stop : Nat) : Nat → Nat → List RTok → String
+  | pos, i, [] => if pos == stop then "ok" else s!"bad: tokens end at {pos}, the call reported {stop}"
+  | pos, i, t :: ts =>
+    if checkGen window buf stop pos [t] || checkGen window buf (pos + (match t with | .lit _ => 1 | .lit2 _ _ => 2 | .mtch l _ => l)) pos [t] then
+      firstBadTok window buf stop (pos + (match t with | .lit _ => 1 | .lit2 _ _ => 2 | .mtch l _ => l)) (i + 1) ts
+    else s!"bad: token {i} ({repr t}) at buffer position {pos}"
+
+def answerG (window pos stop : Nat) (buf : List UInt8) (toks : List RTok) : String :=
+  let b := buf.toArray
+  if stop ≤ b.size && checkGen window b stop pos toks then "ok"
+  else if stop > b.size then "bad: stop beyond the buffer"
+  else firstBadTok window b stop pos 0 toks
+
 /-! ### containers and checksums -/
 
 def hexL (bs : List UInt8) : String := if bs.isEmpty then "-" else toHex bs.toArray
@@ -175,6 +204,12 @@ def step (line : String) : String :=
     let os := (ops.splitOn ",").filterMap parseOp
     let es := if evs = "-" then [] else (evs.splitOn ";").filterMap parseEv
     answerW (parseNat! window) (parseNat! maxTok) fl os es
+  | ["G", window, pos, stop, buf, toks] =>
+    match parseHex buf with
+    | some b =>
+      let ts := (if toks = "-" then [] else toks.splitOn ",").map parseTok
+      if ts.any Option.isNone then "bad-token" else answerG (parseNat! window) (parseNat! pos) (parseNat! stop) b (ts.filterMap id)
+    | none => "bad-hex"
   | ["R", size, chunks, reads, evs] =>
     let cs := (if chunks = "-" then [] else chunks.splitOn ";").filterMap parseChunk
     let rs := (reads.splitOn ",").map parseNat!
